@@ -4,7 +4,7 @@
 use crate::gen::*;
 use crate::rng::Rng;
 
-pub const N_SHAPES: u64 = 16;
+pub const N_SHAPES: u64 = 18;
 
 fn one_dynamic_block(r: &mut Rng, w: &mut BitW, toks: &[Tok], last: bool, maxlen: u8, no_rle: bool) {
     let cfg = GenCfg {
@@ -337,6 +337,75 @@ pub fn shape(idx: u64, r: &mut Rng) -> (String, Vec<u8>, Vec<u8>) {
             }
             apply(&mut plain, &toks);
             one_dynamic_block(r, &mut w, &toks, true, 15, false);
+        }
+        15 => {
+            name = "matches at distances 32760..32768 starting around a hash renormalisation mark";
+            // marks: plaintext offsets 65024 + k * 32256; a stored preamble up to just before the mark, then a
+            // fixed block of short far matches and literals covering the offsets around it
+            let mark = 65024 + 32256 * r.usize_below(2);
+            let start = mark - 40 - r.usize_below(60);
+            let pre = r.bytes(start);
+            let mut off = 0;
+            while off < pre.len() {
+                let l = (pre.len() - off).min(65535);
+                one_stored_block(&mut w, &pre[off..off + l], false, 0);
+                off += l;
+            }
+            plain.extend_from_slice(&pre);
+            let mut toks = vec![];
+            let mut pos = start;
+            while pos < mark + 80 {
+                if r.chance(1, 3) {
+                    toks.push(Tok::Lit(r.byte()));
+                    pos += 1;
+                } else {
+                    let len = 3 + r.usize_below(8);
+                    toks.push(Tok::Ref {
+                        len: len as u16,
+                        dist: (32768 - r.usize_below(9)) as u16,
+                        irr258: false,
+                    });
+                    pos += len;
+                }
+            }
+            apply(&mut plain, &toks);
+            one_fixed_block(&mut w, &toks, true);
+        }
+        16 => {
+            name = "reference whose target lies about 4096 entries deep in its hash chain";
+            // one distinctive record, then n records sharing its first four bytes, then a long match back
+            // to the first: the measured chain depth is n (the header carries it in 16 bits; tables stop at 4096)
+            let n = *r.pick(&[4090usize, 4093, 4094, 4095, 4096, 4097, 2047, 2048, 1023, 1024]);
+            let head = *b"abcd";
+            let mut toks = vec![];
+            let first: Vec<u8> = (0..12).map(|_| b'A' + r.below(26) as u8).collect();
+            for &b in head.iter().chain(first.iter()) {
+                toks.push(Tok::Lit(b));
+            }
+            for i in 0..n {
+                for &b in head.iter() {
+                    toks.push(Tok::Lit(b));
+                }
+                // three bytes that make every record unique and different from `first`
+                toks.push(Tok::Lit(b'a' + (i % 17) as u8));
+                toks.push(Tok::Lit(b'a' + ((i / 17) % 17) as u8));
+                toks.push(Tok::Lit(b'a' + ((i / 289) % 17) as u8));
+            }
+            let dist = 7 * n + 16;
+            if dist <= 32768 {
+                toks.push(Tok::Ref {
+                    len: 16,
+                    dist: dist as u16,
+                    irr258: false,
+                });
+            }
+            toks.push(Tok::Lit(b'!'));
+            apply(&mut plain, &toks);
+            if r.chance(1, 2) {
+                one_fixed_block(&mut w, &toks, true);
+            } else {
+                one_dynamic_block(r, &mut w, &toks, true, 15, false);
+            }
         }
         _ => {
             name = "single-literal and empty final blocks with every padding";
